@@ -19,6 +19,9 @@ META = {
                 for t in ("quick", "thorough")},
     "assumptions": ["with no entries the coordinate arity cannot be stored (dimension byte 0); keys are empty anyway"],
 }
+META["rule"] += '; round 7: the entries handed to save in other containers - an index object carrying a common value of its own (incl. saved common 0), an OrderedDict, a dict subclass with attributes'
+for _t in META["require"]:
+    META["require"][_t] = list(META["require"][_t]) + ['class:entries_are_an_index_with_its_own_common_value', 'class:entries_are_an_index_with_its_own_common_value,saved_common=0']
 
 
 def shards(tier):
